@@ -1016,6 +1016,32 @@ pub fn update_with_monitors(w: &mut World, psbt: &mut Psbt, i: usize, plan: Opti
                 if again != psbt.inputs[i] {
                     raise(w, "C14", "I7-idempotent", format!("Plan::update_psbt_input applied twice gives a different input than applied once: {}", w.env.inputs[i].spec.text), "coord");
                 }
+                // ... and a plan applied to an input that the descriptor updater has already filled in
+                // (a wallet that records everything first and the chosen path afterwards) may add, never
+                // take away: every key origin, leaf hash and script recorded before is still there, and
+                // the result is consistent with the descriptor
+                if !w.mon.corruption && w.violations.is_empty() {
+                    let mut layered = psbt.clone();
+                    layered.inputs[i] = before.clone();
+                    if let Some(Ok(())) = guard(w, "update_input_with_descriptor(before plan)", "coord", |_| layered.update_input_with_descriptor(i, &desc)) {
+                        let full = layered.inputs[i].clone();
+                        guard(w, "Plan::update_psbt_input(layered)", "coord", |_| pl.update_psbt_input(&mut layered.inputs[i]));
+                        w.stats.probe("plan_update_on_descriptor_updated_input");
+                        let now = &layered.inputs[i];
+                        let lost_origin = full.tap_key_origins.iter().any(|(k, (leaves, src))| match now.tap_key_origins.get(k) {
+                            Some((l2, s2)) => s2 != src || leaves.iter().any(|l| !l2.contains(l)),
+                            None => true,
+                        });
+                        // (bip32_derivation is keyed by the curve point: one key under two names - compressed
+                        // and uncompressed - has one slot, and either writer may put its own name's origin there)
+                        let lost_other = full.bip32_derivation.keys().any(|k| !now.bip32_derivation.contains_key(k)) || full.tap_scripts.iter().any(|(k, v)| now.tap_scripts.get(k) != Some(v));
+                        if lost_origin || lost_other {
+                            raise(w, "C14", "I7-layered", format!("Plan::update_psbt_input on an input already filled in by update_input_with_descriptor loses recorded {}: {}", if lost_origin { "taproot key origins / leaf hashes" } else { "key origins or leaf scripts" }, w.env.inputs[i].spec.text), "coord");
+                        } else {
+                            crate::mon_psbt::check_updater(w, &layered, i, &before, true);
+                        }
+                    }
+                }
             }
         }
     }
